@@ -57,7 +57,29 @@ def check(rep, c, cfg):
                         "constructor can reset the counter")
     if not ctors:
         r.lost("constructor of CallLimitTracker")
-    # who creates trackers: calls of Default::default for the tracker are only in ParserState::new
+    # containers of the tracker (ParserState.call_tracker): replacing the whole tracker rewinds or
+    # resets the count just like a write to the counter would
+    holders = []
+    for a in c.adts:
+        for v in a["variants"]:
+            for f in v["fields"]:
+                if "CallLimitTracker" in f["ty"] and a["path"] != TRACKER:
+                    holders.append((a["path"], f["name"]))
+    for (apath, fname) in holders:
+        short = apath.split("::")[-1]
+        for b in c.bodies:
+            for (x, how, pn) in hirq.mutating_field_accesses(b["body"], fname, short):
+                if how.startswith("method:") and how[7:] in [f["path"] for f in tracker_fns(c)]:
+                    continue  # the tracker's own methods are checked above
+                r.instance("holder:%s.%s<-%s" % (short, fname, b["path"]), where(x), how)
+                r.violation("holder:%s.%s<-%s" % (short, fname, b["path"]), where(x),
+                            "%s.%s is overwritten/borrowed mutably (%s) outside the tracker's own methods: the "
+                            "call count can be rewound, so a refusal is forgotten before pest::state looks"
+                            % (short, fname, how))
+        # copies of the tracker taken out of the state (to be written back later)
+    r.instance("holders", "", str(holders))
+    if not holders:
+        r.lost("a struct holding the CallLimitTracker")
     # mutators: exactly the increment
     inc_fns = []
     for p, ms in muts.items():
